@@ -2,6 +2,7 @@ package pstree
 
 import (
 	"fmt"
+	"math"
 	"sort"
 	"strings"
 
@@ -31,8 +32,10 @@ func mapCmp(kind string, mag int) func(a, b int) int {
 		case 1:
 			return a - b
 		case 2:
-			if a != b {
-				return (a - b) / max(a-b, b-a) * (1<<31 - 1)
+			if a < b {
+				return math.MinInt
+			} else if a > b {
+				return math.MaxInt
 			}
 			return 0
 		}
